@@ -73,6 +73,7 @@ type lcExp struct {
 	LastOpen string   `json:"lastopen"`
 	LastSend string   `json:"lastsend"`
 	Out      []string `json:"out"`
+	NsBusy   bool     `json:"nsbusy"`
 }
 
 type lcStep struct {
@@ -91,6 +92,7 @@ type lcSchedule struct {
 	Mem     string   `json:"mem"`     // "file" | "memfd"
 	Streams int      `json:"streams"` // number of spec streams
 	Cb      []int    `json:"cb"`      // spec stream numbers (1-based) in callback mode
+	Late    []int    `json:"late"`    // spec stream numbers that do not exist at the start (opened by the peer in DrainBegin)
 	Peer    string   `json:"peer"`    // real mode: "inproc" | "child"
 	End     string   `json:"end"`     // real mode, child peer still alive at the end: "kill" | "close"
 	Gate    string   `json:"gate"`    // witness schedules: name of a staged interleaving
@@ -330,6 +332,42 @@ func (c *lcCb) OnData(reader BufferReader) {
 func (c *lcCb) OnLocalClose()  { atomic.AddInt32(&c.l, 1) }
 func (c *lcCb) OnRemoteClose() { atomic.AddInt32(&c.r, 1) }
 
+// ListenCallback of a server survivor with late streams: OnNewStream of the FIRST late stream blocks the event loop (it is
+// called from inside handlePolling's drain) until NsRelease
+type lcListen struct{ w *lcWorld }
+
+func (l *lcListen) OnNewStream(st *Stream) {
+	w := l.w
+	w.mu.Lock()
+	k := w.lateGot
+	w.lateGot++
+	if k < len(w.sc.Late) {
+		w.svStr[w.sc.Late[k]-1] = st
+	}
+	w.mu.Unlock()
+	if k == 0 {
+		atomic.StoreInt32(&w.nsEntered, 1)
+		<-w.nsRelease
+		atomic.StoreInt32(&w.nsEntered, 0)
+	}
+}
+func (l *lcListen) OnShutdown(reason string) {}
+
+func (w *lcWorld) isLate(i int) bool {
+	for _, l := range w.sc.Late {
+		if l-1 == i {
+			return true
+		}
+	}
+	return false
+}
+
+func (w *lcWorld) stream(i int) *Stream {
+	w.mu.Lock()
+	defer w.mu.Unlock()
+	return w.svStr[i]
+}
+
 type lcChild struct {
 	cmd  *exec.Cmd
 	in   io.WriteCloser
@@ -367,6 +405,10 @@ type lcWorld struct {
 	prPtr     string
 	cbClosed  bool
 	flStable  int
+	lateGot   int           // streams handed to OnNewStream so far
+	nsEntered int32         // the event loop is inside OnNewStream of the first late stream
+	nsRelease chan struct{} // closed by NsRelease
+	nsOnce    sync.Once
 	unflushed []bool // the user has written data into the stream's BufferWriter that no Flush has taken yet
 }
 
@@ -513,6 +555,9 @@ func (w *lcWorld) setupPair() error {
 	cs := make([]*Stream, n)
 	ss := make([]*Stream, n)
 	for i := 0; i < n; i++ {
+		if w.isLate(i) {
+			continue
+		}
 		st, err := cl.OpenStream()
 		if err != nil {
 			return err
@@ -565,7 +610,17 @@ func (w *lcWorld) afterSetup() error {
 	}
 	// every stream carries written, not yet flushed data from now on: "Flush fails later" is only meaningful with data
 	w.unflushed = make([]bool, n)
+	w.nsRelease = make(chan struct{})
+	if len(w.sc.Late) > 0 {
+		if w.sv.isClient || w.pr == nil {
+			return fmt.Errorf("late streams need a server survivor with an in-process peer")
+		}
+		w.sv.config.listenCallback = &lcListen{w}
+	}
 	for i := 0; i < n; i++ {
+		if w.svStr[i] == nil {
+			continue
+		}
 		if err := w.svStr[i].BufferWriter().WriteString("p"); err != nil {
 			return err
 		}
@@ -669,15 +724,24 @@ func (w *lcWorld) observe() *lcExp {
 			x.Conn = "closed"
 		}
 	}
+	x.NsBusy = atomic.LoadInt32(&w.nsEntered) == 1
+	strs := make([]*Stream, n)
+	w.mu.Lock()
+	copy(strs, w.svStr[:n])
+	w.mu.Unlock()
 	s.streamLock.RLock()
 	x.TableNil = s.streams == nil
 	for i := 0; i < n; i++ {
-		st := w.svStr[i]
-		x.InTable[i] = s.streams != nil && s.streams[st.id] == st
+		st := strs[i]
+		x.InTable[i] = st != nil && s.streams != nil && s.streams[st.id] == st
 	}
 	s.streamLock.RUnlock()
 	for i := 0; i < n; i++ {
-		st := w.svStr[i]
+		st := strs[i]
+		if st == nil {
+			x.St[i] = "none"
+			continue
+		}
 		switch streamState(atomic.LoadUint32(&st.state)) {
 		case streamOpened:
 			x.St[i] = "open"
@@ -1058,6 +1122,25 @@ func (w *lcWorld) stepManual(i int, st *lcStep) {
 		} else {
 			w.res.Harness = "PeerOpenNew: " + err.Error()
 		}
+	case "DrainBegin":
+		// the client peer opens the two late streams (two elements in the survivor's receive queue, one polling event), then
+		// the survivor's loop starts the drain and blocks inside OnNewStream of the first one
+		for _, l := range w.sc.Late {
+			ns, err := w.pr.OpenStream()
+			if err != nil {
+				w.res.Harness = "DrainBegin: " + err.Error()
+				return
+			}
+			ns.BufferWriter().WriteString("n")
+			if err := ns.Flush(false); err != nil {
+				w.res.Harness = "DrainBegin: " + err.Error()
+				return
+			}
+			w.prStr[l-1] = ns
+		}
+		w.goCall("loop", func() string { lcEvents(w.dS); return "" })
+	case "NsRelease":
+		w.nsOnce.Do(func() { close(w.nsRelease) })
 	case "PeerDrain":
 		lcEvents(w.dP)
 	case "PeerDies":
@@ -1234,6 +1317,7 @@ func lcTornDown(s *Session) bool {
 func (w *lcWorld) finish() {
 	step := len(w.sc.Steps)
 	// a loop call that is blocked on a running callback must be released first
+	w.nsOnce.Do(func() { close(w.nsRelease) })
 	w.cbClosed = true
 	for _, c := range w.cbs {
 		if c != nil {
@@ -1424,8 +1508,17 @@ func (w *lcWorld) laterCalls(step int) {
 		})
 	}
 	for i := 0; i < w.sc.Streams; i++ {
-		st := w.svStr[i]
+		st := w.stream(i)
 		n := i + 1
+		if st == nil {
+			continue
+		}
+		// every stream the session ever had - also one registered between Close() and the teardown lambda - is closed
+		if state := streamState(atomic.LoadUint32(&st.state)); state != streamClosed || !lcChanClosed(st.closeNotifyCh) {
+			w.violate("stream-left-open", fmt.Sprintf("stream %d (id %d) of the closed and torn down session: state %d (1 = closed), close notification delivered: %v",
+				n, st.id, state, lcChanClosed(st.closeNotifyCh)), step)
+			continue
+		}
 		if !w.isCb[i] {
 			run(fmt.Sprintf("ReadBytes(stream %d)", n), func() string {
 				// data that had been delivered before the end may still be read; afterwards the call must fail
